@@ -32,7 +32,7 @@ RULE = (
     "(workload, angle class, input kind, chain length or key spelling, query kind)"
 )
 ASSUMPTIONS = ["rotations are unit quaternions / proper rotation matrices", "orientation equality is up to quaternion sign"]
-DECIDING = ["HomogeneousMatrix.invariant_checked", "HomogeneousMatrix.transform.checked", "HomogeneousMatrix.dot.checked", "HomogeneousMatrix.inv.checked", "TransformDict.transform.checked", "C18.mismatch_rejected", "C18.unregistered_rejected", "C18.roundtrips", "C18.chains"]
+DECIDING = ["HomogeneousMatrix.invariant_checked", "HomogeneousMatrix.transform.checked", "HomogeneousMatrix.dot.checked", "HomogeneousMatrix.inv.checked", "TransformDict.transform.checked", "C18.mismatch_rejected", "C18.unregistered_rejected", "C18.roundtrips", "C18.chains", "C18.history_queries"]
 JOBS = {"quick": 2, "thorough": 14}
 FRAMES = list(FrameID)
 
@@ -349,5 +349,57 @@ def run(ctx: Ctx) -> None:
                     e = (exp @ np.append(p, 1.0))[:3]
                     ctx.check(np.abs(np.asarray(out, dtype=float) - e).max() <= ptol(e, p) * 10, "C18/registry_answer_not_direct_or_inverse_entry", dict(info, out=np.asarray(out).tolist(), exp=e.tolist()), "TransformDict.transform")
                     ctx.case(("registry", kind, hows[0], hows[1], key_kind), nontrivial=True)
+        # ---- registry histories: queries interleaved with re-registration, deletion and copies
+        import copy as _copy
+
+        for idx in ctx.indices("registry_history", 300 if ctx.quick else 30000):
+            with ctx.case_guard("registry_history"):
+                r = ctx.rng("registry_history", idx)
+                frames = r.sample(FRAMES, r.randint(2, 4))
+                model: Dict[Tuple[FrameID, FrameID], np.ndarray] = {}
+                td = TransformDict()
+                ctx.begin_case("registry_history", idx, frames=[f.value for f in frames])
+                ops = []
+                for step in range(r.randint(4, 14)):
+                    op = r.choice(["set", "set", "query", "query", "query", "del", "copy"])
+                    if op == "set":
+                        a, b = r.sample(frames, 2)
+                        if (b, a) in model and (a, b) not in model and r.random() < 0.5:
+                            a, b = b, a  # prefer replacing an existing registration
+                        q, _ = rand_rotation(r)
+                        m, _k = make_matrix(r, q, rand_translation(r), a, b)
+                        key = r.choice([(a, b), (a.value, b.value), TransformKey(a, b), (a, b.value)])
+                        td[key] = m
+                        model[(a, b)] = np.asarray(m.matrix, dtype=float)
+                        ops.append(f"set {a.value}->{b.value}")
+                    elif op == "del" and model:
+                        a, b = r.choice(sorted(model, key=lambda k: (k[0].value, k[1].value)))
+                        del td[r.choice([(a, b), (a.value, b.value), TransformKey(a, b)])]
+                        del model[(a, b)]
+                        ops.append(f"del {a.value}->{b.value}")
+                    elif op == "copy":
+                        td = _copy.deepcopy(td) if r.random() < 0.7 else _copy.copy(td)
+                        ops.append("copy")
+                    else:
+                        a, b = r.sample(frames, 2)
+                        p = np.array(rand_translation(r))
+                        exp = model.get((a, b))
+                        if exp is None and (b, a) in model:
+                            exp = G.inv_rigid(model[(b, a)])
+                        ops.append(f"query {a.value}->{b.value}")
+                        ctx.count("C18.history_queries")
+                        try:
+                            out = td.transform(r.choice([(a, b), (a.value, b.value), TransformKey(a, b)]), p)
+                        except KeyError:
+                            ctx.check(exp is None, "C18/registered_transform_not_found", dict(ops=ops[-8:]), "TransformDict.transform")
+                            if exp is None:
+                                ctx.count("C18.unregistered_rejected")
+                            continue
+                        if exp is None:
+                            ctx.violation("C18/unregistered_transform_answered", dict(ops=ops[-8:]), tap="TransformDict.transform")
+                            continue
+                        e = (exp @ np.append(p, 1.0))[:3]
+                        ctx.check(np.abs(np.asarray(out, dtype=float) - e).max() <= ptol(e, p) * 10, "C18/registry_answer_not_current_direct_or_inverse_entry", dict(ops=ops[-8:], out=np.asarray(out).tolist(), exp=e.tolist()), "TransformDict.transform")
+                ctx.case(("registry_history", len(frames), "del" in " ".join(ops), "copy" in ops), nontrivial=True, sample=dict(ops=ops) if idx < 2 else None)
         ctx.counters["HomogeneousMatrix.invariant_checked"] = INV_COUNT[0]
         ctx.notes["taps"] = taps.installed
